@@ -356,7 +356,11 @@ func genC15(rng *hx.Rng, tier string, w *hx.Writer) error {
 			if impl != hx.B(frameOf(p)) {
 				oracle = hx.Fail("frame-write-wrong", fmt.Sprintf("writeTo over a transport that accepts %v bytes per call did not emit length prefix + the whole payload (%d bytes)", sp, l))
 			}
-			w.Put(hx.Case{Entry: "framing", Op: 2, Args: hx.L(hx.B(p)), Impl: impl, Oracle: oracle, Tags: []string{"write-short-writes", "nt"}})
+			lv := make([]string, len(sp))
+			for i, x := range sp {
+				lv[i] = hx.Zi(x)
+			}
+			w.Put(hx.Case{Entry: "framing", Op: 3, Args: hx.L(hx.B(p), hx.L(lv...)), Impl: impl, Oracle: oracle, Tags: []string{"write-short-writes", "nt"}})
 		}
 	}
 	// (h) several connections are read at the same time (one reader goroutine per peer): a reader that
